@@ -184,7 +184,26 @@ impl Check for C12 {
         let mut o = cases::doc_opts_for(tier, &mut rng);
         o.pay.max_len = *rng.pick(&[8usize, 24, 24, 130]);
         o.max_nodes = *rng.pick(&[2usize, 5, 12, 25]);
-        let doc = gen::gen_doc(&mut rng, &spec, &o);
+        let mut doc = gen::gen_doc(&mut rng, &spec, &o);
+        if rng.chance(1, 150) {
+            // a long document: two or three binary elements larger than the default buffer, of different sizes, next to
+            // each other, appended to the first root master when that keeps the document unambiguous (cuts are then
+            // sampled, see exec)
+            let sizes = [65_530usize, 65_537, 70_000, 90_000, 131_073];
+            if let Some(root) = doc.iter_mut().find(|n| n.is_master()) {
+                let ids: Vec<u64> = spec.elems.iter().filter(|e| e.ty == crate::spec::Ty::Bin && !e.has_global() && spec.allowed(e.id, &[root.id])).map(|e| e.id).collect();
+                let last_is_open = root.children().last().map_or(false, |n| n.is_master() && n.enc.unknown);
+                if !ids.is_empty() && !last_is_open {
+                    if let enc::Body::Master(cs) = &mut root.body {
+                        for _ in 0..rng.range(2, 3) {
+                            let l = *rng.pick(&sizes);
+                            cs.push(enc::Node::leaf(*rng.pick(&ids), crate::val::Val::B(vec![0x5a; l])));
+                        }
+                    }
+                    root.visit_mut(&mut |x| x.enc.size_w = 0);
+                }
+            }
+        }
         Case { spec, doc, cut: None, variants: vec![], vseed: rng.next(), limit_slack: if rng.chance(1, 3) { Some(rng.range(0, 2)) } else { None } }
     }
 
@@ -193,7 +212,30 @@ impl Check for C12 {
         let len = e.bytes.len();
         let cuts: Vec<usize> = match c.cut {
             Some(k) => vec![k.min(len)],
-            None => (0..=len).collect(),
+            None if len <= 3000 => (0..=len).collect(),
+            // a long document: every cut within 20 bytes of a tag boundary or of a multiple of 64 KiB (where buffers
+            // wrap), plus a drawn sample, instead of all of them
+            None => {
+                let mut cr = Rng::new(c.vseed ^ 0xC075);
+                let mut v: Vec<usize> = Vec::new();
+                let mut marks: Vec<usize> = Vec::new();
+                for x in e.layout.elems.iter().filter(|x| !x.is_master && x.size.map_or(false, |s| s > 60_000)) {
+                    marks.extend([x.off, x.data_start(), x.end]);
+                }
+                marks.extend((1..=len / 65536).map(|k| k * 65536));
+                for m in marks {
+                    for d in [0usize, 1, 3, 17] {
+                        v.push(m.saturating_sub(d));
+                        v.push((m + d).min(len));
+                    }
+                }
+                for _ in 0..12 {
+                    v.push(cr.range(0, len));
+                }
+                v.sort();
+                v.dedup();
+                v
+            }
         };
         st.add("documents", 1);
         st.add("elements", e.layout.elems.len() as u64);
@@ -310,7 +352,7 @@ impl Check for C12 {
     }
 
     fn rule(&self) -> &'static str {
-        "One case = specification + valid document (known- and unknown-size masters, explicit widths, non-canonical payload lengths) for which EVERY cut position 0..=len is executed: the slice run plus two drawn (capacity, delivery schedule) pairs per cut. Expected items and every field of the UnexpectedEOF error are computed from the reference encoder's layout. Non-trivial: the document has at least 2 bytes. Distinct: FNV-1a fingerprint of the encoded document + specification. 'evaluations' counts documents; the number of cuts executed is in counters.truncations_injected."
+        "One case = specification + valid document (known- and unknown-size masters, explicit widths, non-canonical payload lengths) for which EVERY cut position 0..=len is executed (for the one document in 150 that holds elements larger than 64 KiB: every cut near a tag boundary or a multiple of 64 KiB plus a drawn sample): the slice run plus two drawn (capacity, delivery schedule) pairs per cut. Expected items and every field of the UnexpectedEOF error are computed from the reference encoder's layout. Non-trivial: the document has at least 2 bytes. Distinct: FNV-1a fingerprint of the encoded document + specification. 'evaluations' counts documents; the number of cuts executed is in counters.truncations_injected."
     }
     fn assumptions(&self) -> Vec<&'static str> {
         vec![
